@@ -432,7 +432,41 @@ fn interleaved(ctx: &Ctx, rep: &mut Report) {
     rep.require("interleaved_sequences", 10);
 }
 
+/// Enormous true norms that are small modulo 2^31 / 2^32, in several mass layouts (see
+/// gen::overflow_layouts): the reference rejects all of them.
+fn overflow_v<V: Fv>(ctx: &Ctx, rep: &mut Report) {
+    let reps = ctx.sz(6, 80);
+    let r = par_for(reps, ncpu(), |job, rep| {
+        let mut rng = rng_for(ctx.seed, &format!("c02-overflow-{}-{}", V::NAME, job));
+        for (name, c) in crate::gen::overflow_layouts(V::N, V::BOUND, &mut rng) {
+            let body = match spec::compress(&c.s2, V::SIG_LEN - 41) {
+                Some(b) => b,
+                None => continue,
+            };
+            let sb = build_sig::<V>(&c.salt, &body);
+            let pkb = spec::pk_encode(&c.h);
+            let out = check_triple::<V>(&format!("overflow-{}", name), &c.msg, &sb, &pkb, rep);
+            match out {
+                Some((false, VerifyTrace::Norm(nrm))) if nrm == c.norm => {
+                    rep.count("overflow_layout_triples", 1);
+                    rep.count(&format!("overflow_{}", name.split("-mod-").next().unwrap()), 1);
+                    rep.nontrivial(format!("overflow|{}|{}|{}", V::NAME, job, name).as_bytes());
+                    if job == 0 {
+                        rep.sample(json!({"variant": V::NAME, "layout": name, "true_norm": nrm, "norm_mod_2^32": nrm % (1i64 << 32), "bound": V::BOUND}));
+                    }
+                }
+                other => rep.inconclusive(format!("overflow layout {} did not give the intended reference verdict: {:?}", name, other)),
+            }
+        }
+    });
+    rep.merge(r);
+}
+
 pub fn boundary(ctx: &Ctx, rep: &mut Report) {
+    overflow_v::<F512>(ctx, rep);
+    overflow_v::<F1024>(ctx, rep);
+    rep.require("overflow_layout_triples", 20);
+    rep.require("overflow_two-step-block", 2);
     interleaved(ctx, rep);
     boundary_v::<F512>(ctx, rep);
     boundary_v::<F1024>(ctx, rep);
